@@ -266,3 +266,58 @@ func (w *WaitGroup) Wait() {
 	}
 	w.real.Wait()
 }
+
+// Map shims sync.Map: every operation is a scheduling point on the map as one location.
+type Map struct {
+	mu sync.Mutex
+	m  map[interface{}]interface{}
+}
+
+func (m *Map) op(kind string, write bool, f func()) {
+	a := mcrt.Op("syncmap."+kind, unsafe.Pointer(m))
+	m.mu.Lock()
+	if m.m == nil {
+		m.m = map[interface{}]interface{}{}
+	}
+	f()
+	m.mu.Unlock()
+	if a {
+		mcrt.Done(unsafe.Pointer(m), write, uint64(len(m.m)))
+	}
+}
+
+func (m *Map) Load(key interface{}) (value interface{}, ok bool) {
+	m.op("load", false, func() { value, ok = m.m[key] })
+	return
+}
+func (m *Map) Store(key, value interface{}) { m.op("store", true, func() { m.m[key] = value }) }
+func (m *Map) LoadOrStore(key, value interface{}) (actual interface{}, loaded bool) {
+	m.op("loadorstore", true, func() {
+		if v, ok := m.m[key]; ok {
+			actual, loaded = v, true
+			return
+		}
+		m.m[key] = value
+		actual = value
+	})
+	return
+}
+func (m *Map) LoadAndDelete(key interface{}) (value interface{}, loaded bool) {
+	m.op("loadanddelete", true, func() { value, loaded = m.m[key]; delete(m.m, key) })
+	return
+}
+func (m *Map) Delete(key interface{}) { m.op("delete", true, func() { delete(m.m, key) }) }
+func (m *Map) Range(f func(key, value interface{}) bool) {
+	var ks, vs []interface{}
+	m.op("range", false, func() {
+		for k, v := range m.m {
+			ks = append(ks, k)
+			vs = append(vs, v)
+		}
+	})
+	for i := range ks {
+		if !f(ks[i], vs[i]) {
+			return
+		}
+	}
+}
